@@ -805,6 +805,8 @@ def r8_inventory(ctx, reach):
 
 
 def run(ctx):
+    from . import C09 as _C09d
+    _C09d.r13_dispatcher_never_waits_for_a_consumer(ctx)   # a frame cannot park the receive task behind a stream consumer that is itself waiting for the receive task
     from . import effects
     effects.check_property(ctx, "C20")    # R20.E: no operation on shared protocol state outside the reviewed table
     r1_dispatch(ctx)
